@@ -19,6 +19,7 @@ def _site_names():
             i += 1
         names[i + 1] = "fn_enter"   # flavour fn: function-granularity schedule points
         names[i + 2] = "fn_exit"
+        names[i + 3] = "mem_access"   # flavour mem: memory-access-granularity schedule points
     except Exception:
         pass
     names[0] = "user_point"
@@ -42,7 +43,7 @@ def sy(cls, sets=None, flavour="O2", weight=1.0, tiers=("quick", "thorough")):
     return {"bin": "mvh", "cls": cls, "sets": sets or {}, "flavour": flavour, "weight": weight, "tiers": tiers, "shrink": SYNC_SHRINK}
 
 def sync_jobs(cls, extra=()):
-    return [sy(cls, weight=5), sy(cls, flavour="O0", weight=1), sy(cls, flavour="asan", weight=1), sy(cls, flavour="fn", weight=2)] + list(extra)
+    return [sy(cls, weight=5), sy(cls, flavour="O0", weight=1), sy(cls, flavour="asan", weight=1), sy(cls, flavour="fn", weight=2), sy(cls, flavour="mem", weight=2)] + list(extra)
 
 BLOCK_PROBES = ["p_block", "wake_one_spin", "wake_many_spin", "p_steal_hit"]
 BLOCK_ONE = ["p_block", "wake_one_spin", "p_steal_hit"]      # primitives that wake one sleeper at a time
@@ -51,7 +52,7 @@ BLOCK_MANY = ["p_block", "wake_many_spin", "p_steal_hit"]    # primitives that w
 PROPS = {
     "C01": {
         "jobs": [fj({"reap_mask": 7, "stealfn": 0}, weight=4), fj({"reap_mask": 63, "stealfn": 0}, weight=2), fj({"reap_mask": 7, "stealfn": 0}, flavour="O0", weight=2),
-                 fj({"reap_mask": 1, "stealfn": 0}, flavour="asan", weight=1), fj({"reap_mask": 7, "stealfn": 0}, flavour="fn", weight=2)],
+                 fj({"reap_mask": 1, "stealfn": 0}, flavour="asan", weight=1), fj({"reap_mask": 7, "stealfn": 0}, flavour="fn", weight=2), fj({"reap_mask": 7, "stealfn": 0}, flavour="mem", weight=2)],
         "relevant_probes": ["p_join_fast", "p_join_next", "p_join_sched", "p_finish_waiter", "p_finish_next", "p_finish_sched",
                             "p_entry_child_first", "p_entry_parent_first", "p_steal_hit"],
         "assumptions": ["generated fork-join programs are determinate: one joiner per thread, values fixed by the plan"],
@@ -62,7 +63,7 @@ PROPS = {
                  {"bin": "wsq_tso", "cls": "wsq", "sets": {"sb_depth": 0}, "flavour": "O2", "weight": 1, "chunk": 20000},
                  fj({"stealfn": 1, "reap_mask": 1}, weight=2), fj({"stealfn": 2, "reap_mask": 1}, weight=2),
                  fj({"stealfn": 3, "reap_mask": 1}, weight=2), fj({"stealfn": 4, "reap_mask": 1}, weight=2), fj({"stealfn": 0, "yield_pm": 1000, "reap_mask": 3}, weight=2),
-                 fj({"reap_mask": 1}, flavour="asan", weight=1), fj({"reap_mask": 1}, flavour="fn", weight=2)],
+                 fj({"reap_mask": 1}, flavour="asan", weight=1), fj({"reap_mask": 1}, flavour="fn", weight=2), fj({"reap_mask": 1}, flavour="mem", weight=2)],
         "relevant_probes": ["p_pop_slow", "p_pop_reset", "p_take_rollback", "p_recentre_down", "p_recentre_up", "p_steal_hit"],
         "assumptions": ["whole-library part only explores sequentially consistent interleavings; x86-TSO is covered by the wsq_tso unit harness",
                         "wsq_tso: the spin lock (CAS + full fence; unlock = full fence + plain store) and the fences (xchg = full fence, wbarrier = compiler barrier) are modelled; the deque algorithm text is the real src/myth_wsqueue_func.h"],
@@ -72,12 +73,12 @@ PROPS = {
     "C12": {
         "jobs": [fj({"stack_mode": 1, "canary": 1, "poison": 1, "attr_pm": 1000}, weight=4), fj({"canary": 1, "poison": 1}, weight=2),
                  fj({"stack_mode": 2, "canary": 1, "poison": 1, "attr_pm": 500}, weight=1, tiers=("thorough",)),
-                 fj({"stack_mode": 1, "canary": 1, "poison": 1}, flavour="asan", weight=1), fj({"canary": 1, "poison": 1}, flavour="fn", weight=2)],
+                 fj({"stack_mode": 1, "canary": 1, "poison": 1}, flavour="asan", weight=1), fj({"canary": 1, "poison": 1}, flavour="fn", weight=2), fj({"canary": 1, "poison": 1}, flavour="mem", weight=2)],
         "relevant_probes": ["p_free_ready2", "p_finish_waiter", "p_finish_next", "p_finish_sched", "p_steal_hit"],
     },
     "C13": {
         "jobs": [fj({"reap_mask": 63}, weight=4), fj({"reap_mask": 62}, weight=2), fj({"nworkers": 1, "reap_mask": 63}, weight=1),
-                 fj({"reap_mask": 63}, flavour="asan", weight=1), fj({"reap_mask": 63}, flavour="fn", weight=2)],
+                 fj({"reap_mask": 63}, flavour="asan", weight=1), fj({"reap_mask": 63}, flavour="fn", weight=2), fj({"reap_mask": 63}, flavour="mem", weight=2)],
         "relevant_probes": ["p_free_ready2", "p_join_fast", "p_join_next", "p_join_sched"],
     },
     "C04": {"jobs": sync_jobs("mutex", [sy("mutex", {"nworkers": 1, "helper_pm": 500}, weight=1)]), "relevant_probes": BLOCK_ONE + ["mutex_cas"]},
@@ -87,25 +88,25 @@ PROPS = {
     "C08": {"jobs": sync_jobs("uncond"), "relevant_probes": ["p_block", "uncond_spin", "uncond_wr"]},
     "C09": {"jobs": sync_jobs("felock"), "relevant_probes": BLOCK_ONE + ["felock_status"]},
     "C14": {"jobs": sync_jobs("once"), "relevant_probes": ["once_cas", "once_spin", "once_done_wr"]},
-    "C10": {"jobs": [sy("tls", flavour="asan", weight=4), sy("tls", weight=3), sy("tls", {"mode": 2}, weight=2), sy("tls", {"mode": 1}, weight=3), sy("tls", flavour="O0", weight=1), sy("tls", flavour="fn", weight=2)],
+    "C10": {"jobs": [sy("tls", flavour="asan", weight=4), sy("tls", weight=3), sy("tls", {"mode": 2}, weight=2), sy("tls", {"mode": 1}, weight=3), sy("tls", flavour="O0", weight=1), sy("tls", flavour="fn", weight=2), sy("tls", flavour="mem", weight=2)],
             "relevant_probes": ["key_cas", "key_rd", "p_steal_hit"],
             "rule": "each evaluation is one simulated execution of a seeded key-usage plan (sequential create/delete/set/get history over all 1024 indices, threads with private dictionaries migrating between workers, or concurrent create/delete); non-trivial = a cross-worker preemption happened and (a thread migrated | key CASes raced | sequential history); distinct = distinct event-sequence signatures. Input coverage (key indices that held a value) is reported separately as x_key_indices_that_held_a_value_distinct_count."},
-    "C11": {"jobs": [sy("dtor", flavour="asan", weight=4), sy("dtor", weight=3), sy("dtor", flavour="O0", weight=1), sy("dtor", flavour="fn", weight=2)],
+    "C11": {"jobs": [sy("dtor", flavour="asan", weight=4), sy("dtor", weight=3), sy("dtor", flavour="O0", weight=1), sy("dtor", flavour="fn", weight=2), sy("dtor", flavour="mem", weight=2)],
             "relevant_probes": ["p_finish_waiter", "p_finish_next", "p_finish_sched"],
             "rule": "each evaluation is one simulated execution in which threads store values under a seeded subset of keys spread over the index range (always including the highest created index, with deleted keys in between so that earlier tree branches are empty) and terminate by return / myth_exit / cancellation; non-trivial = at least one cross-worker preemption; distinct = distinct event-sequence signatures. The decisive dimension is the key subset (input), reported as x_key_indices_that_held_a_value_distinct_count."},
-    "C15": {"jobs": [sy("initfini", weight=6), sy("initfini", flavour="O0", weight=1), sy("initfini", flavour="asan", weight=1), sy("initfini", flavour="fn", weight=2),
+    "C15": {"jobs": [sy("initfini", weight=6), sy("initfini", flavour="O0", weight=1), sy("initfini", flavour="asan", weight=1), sy("initfini", flavour="fn", weight=2), sy("initfini", flavour="mem", weight=2),
                      {"bin": "mvh", "cls": "envstrings", "py": "envcheck", "weight": 1, "flavour": "O2"}],
             "relevant_probes": ["p_main_migrate_back", "init_cas", "init_spin", "exit_flag_wr"],
             "rule": "simulated part: each evaluation is one seeded init/fini history (1..8 cycles, 1..64 workers requested through attribute object / environment / implicit first use, or 2-3 native contexts racing the first use) under a seeded schedule; non-trivial = a cross-worker preemption happened AND (myth_fini had to migrate the main thread back to worker 0 OR several contexts raced myth_init); distinct = distinct event signatures. Input part (not simulation): x_env_cases fresh processes with seeded malformed configuration strings, counted in evaluations but never in distinct_nontrivial.",
             "components": {"real": "all of /repo/src; the environment-string part runs the real worker pthreads (simulator inactive)", "stubbed": "simulated part: worker OS threads (coroutines), start-up barrier, RNG"}},
-    "C20": {"jobs": [sy("timed", weight=5), sy("timed", {"nworkers": 1, "nsib": 2, "mode": 0}, weight=2), sy("timed", flavour="O0", weight=1), sy("timed", flavour="asan", weight=1), sy("timed", flavour="fn", weight=2)],
+    "C20": {"jobs": [sy("timed", weight=5), sy("timed", {"nworkers": 1, "nsib": 2, "mode": 0}, weight=2), sy("timed", flavour="O0", weight=1), sy("timed", flavour="asan", weight=1), sy("timed", flavour="fn", weight=2), sy("timed", flavour="mem", weight=2)],
             "relevant_probes": ["mutex_cas", "p_free_ready2"],
             "rule": "each evaluation is one simulated execution of 1..8 sleeps / timed locks / timed joins against the virtual clock (coarse: zero increments; forward jumps), durations from 0 to seconds with boundary nanosecond fields, past/present/future deadlines; non-trivial = a cross-worker preemption happened and the library read the clock at least once; distinct = distinct event signatures"},
     "C17": {"jobs": [sy("bulk", weight=3), sy("parfor", weight=2), sy("taskgroup", weight=2), sy("bulk", flavour="asan", weight=1),
-                     sy("parfor", flavour="asan", weight=1), sy("taskgroup", flavour="O0", weight=1), sy("bulk", flavour="fn", weight=2), sy("taskgroup", flavour="fn", weight=2)],
+                     sy("parfor", flavour="asan", weight=1), sy("taskgroup", flavour="O0", weight=1), sy("bulk", flavour="fn", weight=2), sy("bulk", flavour="mem", weight=2), sy("taskgroup", flavour="fn", weight=2), sy("taskgroup", flavour="mem", weight=2)],
             "relevant_probes": ["p_steal_hit", "p_join_next", "p_join_sched", "p_finish_waiter"],
             "rule": "each evaluation is one simulated execution of a bulk helper call (n in {0,1,2,3,5,8,13,100,1000}, seeded stride/NULL-array/attribute combinations, guard bytes around every slot), a task_group history (1..40 run() calls, nested groups, reuse after wait) or a parallel_for over a seeded (first,len,step,grain) incl. empty and reversed ranges; non-trivial = a cross-worker preemption happened and (a steal or a blocking join occurred | the range had <= 1 element); distinct = distinct event signatures"},
-    "C03": {"jobs": [sy("regs", weight=4), sy("regs", flavour="O0", weight=3), sy("regs", flavour="asan", weight=1), sy("regs", flavour="fn", weight=2)],
+    "C03": {"jobs": [sy("regs", weight=4), sy("regs", flavour="O0", weight=3), sy("regs", flavour="asan", weight=1), sy("regs", flavour="fn", weight=2), sy("regs", flavour="mem", weight=2)],
             "relevant_probes": ["p_steal_hit", "p_block", "p_entry_child_first", "p_entry_parent_first", "p_finish_waiter", "p_finish_next", "p_finish_sched"],
             "rule": "each evaluation is one simulated execution of 2..12 probe threads that run 3..40 switching operations each (5 yield flavours, child-first and attribute creation, blocking and non-blocking join, contended mutex, usleep, barrier, cond-based barrier, uncond hand-off) through an assembly stub that loads patterns into rbx, rbp, r12-r15 and a 256 B..4 KiB stack array and compares afterwards; every simulator hook additionally asserts a 16-byte aligned frame; non-trivial = a cross-worker preemption happened and at least one probe operation resumed on another worker; distinct = distinct event signatures"},
     "C18": {"engine": "drsim",
@@ -125,7 +126,8 @@ PROPS = {
             "jobs": [{"bin": "ptprog", "cls": "pt", "sets": {}, "flavour": "O2", "weight": 6, "chunk": 200,
                       "shrink": {"nworkers": 1, "nthreads": 1, "rounds": 1, "shapes": 1}},
                      {"bin": "ptprog", "cls": "pt", "sets": {}, "flavour": "O0", "weight": 2, "chunk": 200},
-                     {"bin": "ptprog", "cls": "pt", "sets": {}, "flavour": "fn", "weight": 2, "chunk": 200}],
+                     {"bin": "ptprog", "cls": "pt", "sets": {}, "flavour": "fn", "weight": 2, "chunk": 200},
+                     {"bin": "ptprog", "cls": "pt", "sets": {}, "flavour": "mem", "weight": 2, "chunk": 200}],
             "relevant_probes": ["magic_cas", "magic_wr", "p_block", "p_steal_hit"],
             "rule": "each evaluation is one generated determinate pthread program (spawn trees with join values, pthread_attr_t with detach state and stack size, pthread_exit from a nested frame, statically initialised mutexes first used by several threads at once, trylock loops, spin locks incl. trylock, once, keys with destructors, cond hand-off, barrier phases, self/equal, detach, sched_yield, tiny sleeps; every return code is part of the output) executed (a) once in a fresh process on the system pthreads (MYTH_WRAP_PTHREAD=0) to obtain the expected output and (b) under the simulator with the calls redirected to MassiveThreads by the library's own --wrap list; non-trivial = a cross-worker preemption happened; distinct = distinct event signatures",
             "components": {"real": "all of /repo/src incl. myth_wrap_pthread.c, myth_real.c, myth_wrap_malloc.c, myth_wrap_socket.c (LD flavour, -DMYTH_WRAP=MYTH_WRAP_LD), linked with @src/myth-ld.opts", "stubbed": "worker OS threads (coroutines), start-up barrier, RNG, clock; the reference execution uses the real system pthreads and scheduler (it only provides the expected output of a determinate program)"},
